@@ -5,6 +5,10 @@
 import CC.Drv.Common
 import CC.Drv.ChaCha
 import CC.Drv.Null
+import CC.Drv.JH
+import CC.Drv.Groestl
+import CC.Drv.Simd
+import CC.Simd.Backends
 import CC.Drv.Blake
 import CC.Drv.Threefish
 import CC.Drv.Skein
@@ -14,12 +18,13 @@ structure DS where
   cfg : Cfg := {}
   chacha : CC.Drv.ChaCha.St := {}
   blake : CC.Drv.Blake.St := {}
+  jh : CC.Drv.JH.St := {}
+  groestl : CC.Drv.Groestl.St := {}
   skein : CC.Drv.Skein.St := {}
 
-def machOfName : String → Option CC.Simd.Mach
-  | "ref" => some CC.Simd.Mach.ref
-  | "generic" | "sse2" | "ssse3" | "sse41" | "avx" | "avx2" => some CC.Simd.Mach.ref
-  | _ => none
+/-- `cfg backend <name>`: the algorithm models execute on the implementation model of that
+    backend (`CC.Simd.Mach.ofBackend`, proved equal to `Mach.ref` in C03). -/
+def machOfName : String → Option CC.Simd.Mach := CC.Simd.Mach.ofName
 
 def step (ds : DS) (line : String) : DS × String :=
   let toks := (line.trimAscii.toString.splitOn " ").filter (· != "")
@@ -37,6 +42,13 @@ def step (ds : DS) (line : String) : DS × String :=
   | "blake" :: _ =>
     let (s, out) := CC.Drv.Blake.step ds.cfg ds.blake toks
     ({ ds with blake := s }, out)
+  | "jh" :: _ =>
+    let (s, out) := CC.Drv.JH.step ds.cfg ds.jh toks
+    ({ ds with jh := s }, out)
+  | "groestl" :: _ =>
+    let (s, out) := CC.Drv.Groestl.step ds.cfg ds.groestl toks
+    ({ ds with groestl := s }, out)
+  | "simd" :: _ | "intrin" :: _ => (ds, CC.Drv.Simd.step toks)
   | "null" :: _ => (ds, CC.Drv.Null.step ds.cfg toks)
   | "tf" :: _ | "tfl" :: _ => (ds, CC.Drv.Threefish.step toks)
   | "skein" :: _ =>
